@@ -41,6 +41,7 @@ func c14(c *Ctx) {
 		"(enums) validateKey, folded for every OutputPrefixType and KeyStatusType constant plus an out-of-range probe, accepts exactly {TINK,LEGACY,RAW,CRUNCHY} x {ENABLED,DISABLED,DESTROYED} and rejects nil key data; keyStatusFromProto / the prefix tables agree on the same sets; " +
 		"(structure) Validate rejects nil/empty keysets, applies validateKey to every key, rejects a repeated key ID through a map every iteration feeds, rejects a non-ENABLED primary and a second primary, and succeeds only with an ENABLED primary found; " +
 		"(strength) the strength validators, folded at their boundaries, reject exactly below the library minimums (AES key in {16,32}; RSA modulus >= 2048 and e == 65537; ECDSA hash no weaker than the curve; HKDF-PRF key >= 32 with SHA-256/512; HMAC-PRF key >= 16; AES-CMAC-PRF key == 32; HMAC under C04) and every primitive constructor of those key types passes through its validator on every success path. " +
+		"(keypair) every validate…PrivateKey function compares, on every success path, the public key derived from the private material with the stored public key; " +
 		"(bigint) every narrowing of a big integer parsed from key material (Int64/Uint64) is dominated by the matching IsInt64/IsUint64 check on the same value, so oversized RSA exponents cannot be truncated into acceptable ones. " +
 		"Not decided: absence of run-time panics in general (index arithmetic in loops, stdlib), self-consistency of created primitives (behavioural)."
 	c14Validate(c)
@@ -48,6 +49,7 @@ func c14(c *Ctx) {
 	c14Structure(c)
 	c14Strength(c)
 	c14BigInt(c)
+	c14KeyPair(c)
 }
 
 // ---------------------------------------------------------------- validate
@@ -555,4 +557,79 @@ func c14BigInt(c *Ctx) {
 	}
 	r.Counts["bigint_narrowings"] = n
 	r.Min("C14.bigint", 8)
+}
+
+// c14KeyPair: every private-key validator compares, on every success path, the
+// public key derived from the private material with the stored public key.
+func c14KeyPair(c *Ctx) {
+	p, r := c.P, c.R
+	n := 0
+	for _, f := range p.SortedFuncs(core.Product) {
+		if f.Parent() != nil || f.Synthetic != "" {
+			continue
+		}
+		ln := strings.ToLower(f.Name())
+		if !(strings.HasPrefix(ln, "validate") && strings.HasSuffix(ln, "privatekey")) {
+			continue
+		}
+		// the public-key parameter
+		var pub ssa.Value
+		for _, prm := range f.Params {
+			if strings.Contains(strings.ToLower(prm.Name()), "pub") {
+				pub = prm
+			}
+		}
+		if pub == nil {
+			continue
+		}
+		n++
+		key := "C14.keypair/" + core.FuncID(f)
+		isEq := func(fct guard.Fact) bool {
+			if call, val, ok := guard.BoolCallFact(fct); ok && val {
+				nme := guard.CalleeName(&call.Call)
+				if nme == "bytes.Equal" || strings.HasSuffix(nme, ").Equal") || nme == "crypto/hmac.Equal" {
+					for _, a := range call.Call.Args {
+						if derivesFrom(a, pub, 0) {
+							return true
+						}
+					}
+					if call.Call.IsInvoke() && derivesFrom(call.Call.Value, pub, 0) {
+						return true
+					}
+				}
+			}
+			if op, x, y, ok := guard.Cmp(fct); ok && op == token.EQL {
+				for _, pr := range [][2]ssa.Value{{x, y}, {y, x}} {
+					if cc, _ := guard.CallOf(pr[0]); cc != nil {
+						nme := guard.CalleeName(&cc.Call)
+						if k, isK := guard.ConstInt(pr[1]); isK && ((nme == "crypto/subtle.ConstantTimeCompare" && k == 1) || (strings.HasSuffix(nme, "big.Int).Cmp") && k == 0) || (nme == "bytes.Compare" && k == 0)) {
+							for _, a := range cc.Call.Args {
+								if derivesFrom(a, pub, 0) {
+									return true
+								}
+							}
+						}
+					}
+				}
+			}
+			return false
+		}
+		good := len(guard.SuccessReturns(f)) > 0
+		for _, ret := range guard.SuccessReturns(f) {
+			ok := everyPathHas(ret.Block(), func(fs []guard.Fact) bool {
+				for _, fct := range fs {
+					if isEq(fct) {
+						return true
+					}
+				}
+				return false
+			})
+			if !ok {
+				good = false
+			}
+		}
+		r.Check(good, "C14.keypair", key, p.FuncPos(f), "a private key can be accepted on a path that never compares the public key derived from it with the stored public key: a handle whose halves do not match would be accepted", "every success path has an equality check against the public key")
+	}
+	r.Counts["private_key_validators"] = n
+	r.Min("C14.keypair", 3)
 }
